@@ -5,9 +5,9 @@ EXPLANATION = ("Sequential contracts of the channel queue operations and of refe
 ASSUMPTIONS = [
     "R-lock: each body is verified as the critical section under its Mutex; interleavings of critical sections are covered by the history lemmas (any order of operations), lock acquisition/poisoning is not modelled",
     "Thread::deep_clone_value returns a structurally equal copy (assumed contract; see C13 for its share-or-copy guard)",
-    "lazy values (lazy.rs force is an async state machine) and coroutine spawn/resume/yield are NOT covered",
+    "lazy values: force is an async state machine outside both tools; only its failure arm is under contract (R-arm). At-most-once evaluation, the cross-thread wait and coroutine spawn/resume/yield are NOT covered",
 ]
-NOT_UNDER_CONTRACT = ["vm/src/lazy.rs force/Thunk/Blackhole", "channel::resume/yield_/spawn", "the primitive wrapper recv in channel.rs (closure with `_` param is outside Verus's dialect)"]
+NOT_UNDER_CONTRACT = ["vm/src/lazy.rs force apart from its failure arm (success arm, blackhole/loop detection, cross-thread wait)", "channel::resume/yield_/spawn", "the primitive wrapper recv in channel.rs (closure with `_` param is outside Verus's dialect)"]
 
 
 def v(unit, fn, clause, source=None):
@@ -26,5 +26,7 @@ def obligations(tier):
         v("reference", "make_ref", "new cell holds the argument", "vm/src/reference.rs::make_ref"),
         v("reference", "st::set", "Return => cell holds a copy of the argument; Panic => cell unchanged", "vm/src/reference.rs::st::set"),
         v("reference", "st::get", "returns exactly the cell content", "vm/src/reference.rs::st::get"),
+        dict(engine="verus", unit="lazy", function="force::thunk_failed", name="C17/lazy/force_thunk_failed", source="vm/src/lazy.rs::force (arm: the computation failed)",
+             clause="when the computation of a lazy value fails, the value is not left in the being-evaluated state (so every later force, from any thread, gets an answer instead of waiting)"),
         v("reference", "lemma_reference_last_write", "for every history of set/get: the cell holds (a copy of) the most recently stored value", "lemma over the contracts"),
     ]
